@@ -2,6 +2,7 @@ import Yuiv.Proofs.C18
 import Yuiv.Proofs.C18Orbit
 import Yuiv.Proofs.C18Check
 import Yuiv.Proofs.C18Closure
+import Yuiv.Proofs.C18Resolve
 /-
 C18 — link diagrams: components, signs, resolutions and braid closures.
 
@@ -126,6 +127,28 @@ example : Valid (fromPD [[4,2,5,1],[8,6,1,5],[6,3,7,4],[2,7,3,8]]) := by decide
 example : traverse (fromPD [[0,0,1,1]]) (0, 0) = .ok [(0,0),(0,3),(0,0)] := by decide
 /-- the bound is sharp for malformed codes: a label occurring three times makes the walk panic -/
 example : traverse (fromPD [[1,2,1,1]]) (0, 1) = .panic := by decide
+
+/-! ### F. resolution states
+
+`smoothAll l s` (spec): go along the crossings and smooth the `k`-th unresolved one by the `k`-th bit
+(`X`,0 ↦ `H`; `X`,1 ↦ `V`; `Xm`,0 ↦ `V`; `Xm`,1 ↦ `H`), resolved crossings are skipped. -/
+
+/-- `resolved_by` with a state of the right length never panics, equals the spec, leaves no crossing and
+keeps every edge array; with a state of the wrong length it panics (debug assertion) -/
+theorem resolvedBy_spec (l : Link) (s : List Bool) :
+    (s.length = crossingNum l →
+      resolvedBy l s = .ok (smoothAll l s) ∧ crossingNum (smoothAll l s) = 0 ∧
+      (smoothAll l s).map Crossing.edges = l.map Crossing.edges) ∧
+    (s.length ≠ crossingNum l → resolvedBy l s = .panic) := by
+  constructor
+  · intro h
+    obtain ⟨h1, h2⟩ := foldlM_resolveFirst s l h
+    exact ⟨by unfold resolvedBy; rw [if_pos h]; exact h1, h2, smoothAll_edges l s⟩
+  · intro h
+    unfold resolvedBy; rw [if_neg h]
+
+example : resolvedBy (fromPD [[1,4,2,5],[3,6,4,1],[5,2,6,3]]) [false, true, false]
+    = .ok [⟨.H,1,4,2,5⟩, ⟨.V,3,6,4,1⟩, ⟨.H,5,2,6,3⟩] := by decide
 
 /-! ### E. verified checker for component lists
 
